@@ -88,8 +88,9 @@ def gen_history(rng, model_comparable):
                 ops.append("ent %d %s" % (h, core.src_tokens(core.flat_tape(words))))
     titles = sorted(set(w for o in objs if o["kind"] == "wl" for w in o["list"]))
     tl = "0" if not titles or not model_comparable else "%d,%s" % (len(titles), ",".join("%s>%s" % (core.hx(w), core.hx(w.capitalize())) for w in titles))
-    line = "%s %d %s %d %s" % (tl, nobj, " ".join(obj_tokens(o) for o in objs), len(ops), " ".join(ops))
-    return line, ops, [o["kind"] for o in objs]
+    head = "%s %d %s" % (tl, nobj, " ".join(obj_tokens(o) for o in objs))
+    line = "%s %d %s" % (head, len(ops), " ".join(ops))
+    return line, ops, head
 
 
 def state_key(o):
@@ -147,9 +148,9 @@ def correspondence(ctx):
     n = 250 if ctx.tier == "quick" else 3000
     lines, metas = [], []
     for i in range(n):
-        line, ops, kinds = gen_history(rng, model_comparable=True)
+        line, ops, head = gen_history(rng, model_comparable=True)
         lines.append("h%d history %s" % (i, line))
-        metas.append({"ops": ops, "line": "history " + line})
+        metas.append({"ops": ops, "line": "history " + line, "head": head})
         seen_set = set()
         for o in ops:
             t = o.split(" ")
@@ -234,6 +235,49 @@ def oracle(ctx, deep):
                 ctx.violations.append(dict(base, finding_key="C15-history", what="the same call with the same random bytes and unchanged fields gave different results at operations %d and %d: %s" % (last[key][0], j, op[:60])))
                 break
             last[key] = (j, res)
+    if not ctx.violations:
+        fresh_process_independence(ctx, deep)
+
+
+UPDATES = ("setc", "mutreq", "setw")
+
+
+def fresh_process_independence(ctx, deep):
+    """The result of a call may depend on the recipe's current fields and on its own random bytes, not on the calls made
+    before it: for a sample of histories, a late library call is run again ALONE in a fresh process (all caller-side field
+    updates kept, every earlier library call dropped) and must give the result it gave inside the history."""
+    from concurrent.futures import ThreadPoolExecutor
+    cand = [(m, a) for m, a in getattr(ctx, "hist_results", []) if a and "head" in m and not a.startswith("panic") and "HARNESS-FAILURE" not in a]
+    # histories in which the model and the implementation disagreed first
+    bad_lines = set(mm["case"][:2000].split(" ", 1)[1] for mm in ctx.mismatches if mm.get("family") == "history")
+    cand.sort(key=lambda ma: 0 if ma[0]["line"][:1992] in bad_lines or ma[0]["line"] in bad_lines else 1)
+    jobs = []
+    for m, a in cand[:(160 if deep else 32)]:
+        parts = a.rsplit(" stdout=", 1)[0].split(" | ")
+        calls = [j for j, op in enumerate(m["ops"]) if op.split(" ")[0] not in UPDATES and j < len(parts)]
+        calls = [j for j in calls if any(m["ops"][i].split(" ")[0] not in UPDATES for i in range(j))]     # something was called before
+        for j in calls[-2:]:
+            ops2 = [op for i, op in enumerate(m["ops"][:j]) if op.split(" ")[0] in UPDATES] + [m["ops"][j]]
+            jobs.append((m, j, parts[j], "historyo" if False else "history", "%s %d %s" % (m["head"], len(ops2), " ".join(ops2)), len(ops2) - 1))
+
+    def run(job):
+        m, j, want, fam, line, k = job
+        r, _ = core.run_impl(["f %s %s" % (fam, line)])
+        return r.get("f")
+    with ThreadPoolExecutor(max_workers=16) as ex:
+        outs = list(ex.map(run, jobs))
+    for (m, j, want, fam, line, k), got in zip(jobs, outs):
+        ctx.evaluations += 1
+        ctx.count("fresh_process_reruns")
+        if got is None or got.startswith("panic") or "HARNESS-FAILURE" in got:
+            continue
+        p2 = got.rsplit(" stdout=", 1)[0].split(" | ")
+        if k < len(p2) and p2[k] != want:
+            ctx.violations.append({"finding_key": "C15-history", "line": m["line"][:4000], "alone_line": "%s %s" % (fam, line[:3000]), "op_index": j,
+                                   "observed": want[:300], "alone": p2[k][:300],
+                                   "what": "operation %d (%s) gave a different result inside the history than the same call alone in a fresh process with the same "
+                                           "fields and the same random bytes: the result depends on earlier calls" % (j, m["ops"][j][:50])})
+            return
 
 
 def replay(v):
@@ -241,5 +285,9 @@ def replay(v):
     r, _ = core.run_impl([line])
     print(line[:500])
     print("->", (r.get("r") or "")[:1000])
+    if v.get("alone_line"):
+        r2, _ = core.run_impl(["r " + v["alone_line"]])
+        print("operation %d alone in a fresh process:" % v["op_index"], v["alone_line"][:300])
+        print("->", (r2.get("r") or "")[:600])
     print("violation:", v["what"])
     return 1
